@@ -164,6 +164,19 @@ pub fn run(ctx: &Ctx) -> i32 {
     let eci_cfgs: Vec<Cfg> = ecis.iter().map(|e| Cfg { modes: ALL_MODES, list: d, macros: true, fnc1: false, eci: Some(*e) }).collect();
     parts.push(Part { name: "ECI numbers", family: Family::list(vec![b"A".to_vec(), vec![], vec![0xE1, b'1', b'a']]), cfgs: eci_cfgs });
 
+    // ECI headers together with FNC1 / macros / restricted modes / tiny lists
+    let mut hdr_cfgs = Vec::new();
+    for e in [3u32, 127, 16383] {
+        for modes in gen::modes_quick() {
+            for list in [d, sq(10, 10), sq(12, 12), sq(8, 18), ListMask::of(&[gen::idx(10, 10), gen::idx(14, 14)])] {
+                for fnc1 in [false, true] {
+                    hdr_cfgs.push(Cfg { modes, list, macros: true, fnc1, eci: Some(e) });
+                }
+            }
+        }
+    }
+    parts.push(Part { name: "ECI x FNC1 x mode sets x small lists", family: Family::Over { alpha: SIGMA10.to_vec(), min: 0, max: 3 }, cfgs: hdr_cfgs.clone() });
+    parts.push(Part { name: "ECI x FNC1 x mode sets x small lists, macro shapes", family: gen::es_f(1), cfgs: hdr_cfgs });
     gen::sweep(ctx, &parts, |_pi, input, cfg, w| {
         w.sample(|| cfg.to_json(input));
         w.check(common::case_size(input, cfg), || cfg.to_json(input), |st| eval(cfg, input, st));
